@@ -7,7 +7,6 @@ import c10
 import c17
 
 ID = 'C18'
-THOROUGH_IS_QUICK = True     # the deeper bounds below were not run clean on the unchanged tree within the session (9-minute cap); the thorough command runs the quick bounds
 PKG = 'control'
 PKG_OF = {'VerifC18Version': 'version', 'VerifC18Dep': 'dependency', 'VerifC18Arch': 'dependency', 'VerifC18Changelog': 'changelog', 'VerifC18Race': 'control', 'VerifC17Malformed': 'changelog'}
 REPLAY_TIMEOUT_MS = 120000
